@@ -59,7 +59,7 @@ theorem events_shape (cfg : Cfg) (w : World) (req : Req) :
     (∃ pos, (handleExchange cfg w req).2.2 = [Event.exchange pos (stripFramework req.md) req.vals]) ∨
     (∃ pos tail, (handleExchange cfg w req).2.2 = Event.produce pos (stripFramework req.md) :: tail ∧
         ∀ ev ∈ tail, ∃ p, ev = Event.produce p []) := by
-  rcases handleExchange_cases cfg w req with ⟨e, h⟩ | ⟨tv, cur, w1, _, _, _, _, _, h⟩
+  rcases handleExchange_cases cfg w req with ⟨e, w0, h, hm0, hc0⟩ | ⟨tv, cur, w1, _, _, _, _, _, _, h⟩
   · rw [h]; exact Or.inl rfl
   · rcases h with ⟨_, h⟩ | ⟨_, _, h⟩ | ⟨_, _, _, h⟩
     · rw [h]
@@ -178,7 +178,7 @@ theorem one_turn (cfg : Cfg) (w : World) (req : Req)
       (handleExchange cfg w req).2.1.minted = w.minted ++ [advance cur (cur.st.pos + 1)] ∧
       openCursor (handleExchange cfg w req).2.1 (.cursor w.minted.length) = some (advance cur (cur.st.pos + 1)) ∧
       ¬ HasExc (handleExchange cfg w req).1 := by
-  rcases handleExchange_cases cfg w req with ⟨e, h⟩ | ⟨tv, cur, w1, htv, hcur, hp, hm, _, h⟩
+  rcases handleExchange_cases cfg w req with ⟨e, w0, h, hm0, hc0⟩ | ⟨tv, cur, w1, htv, hcur, hp, _, hm, _, h⟩
   · rw [h] at hst; simp [errResp] at hst
   · rw [hroute] at hp
     rcases h with ⟨hc, _⟩ | ⟨_, hr, _⟩ | ⟨_, _, _, h⟩
@@ -239,8 +239,8 @@ theorem failed_turn_no_cursor (cfg : Cfg) (w : World) (req : Req)
     rintro r ⟨e, he⟩ b hb
     rw [he] at hb
     exact exc_litOnly e b hb
-  rcases handleExchange_cases cfg w req with ⟨e, h⟩ | ⟨tv, cur, w1, htv, hcur, _, hm, hcl, h⟩
-  · rw [h]; exact ⟨⟨e, rfl⟩, rfl, rfl, fin _ ⟨e, rfl⟩⟩
+  rcases handleExchange_cases cfg w req with ⟨e, w0, h, hm0, hc0⟩ | ⟨tv, cur, w1, htv, hcur, _, _, hm, hcl, h⟩
+  · rw [h]; exact ⟨⟨e, rfl⟩, hm0, hc0, fin _ ⟨e, rfl⟩⟩
   · rcases h with ⟨hc, _⟩ | ⟨_, hr, _⟩ | ⟨_, _, _, h⟩
     · rw [hnc] at hc; cases hc
     · rw [hroute] at hr; cases hr
@@ -258,8 +258,8 @@ theorem failed_no_cursor (cfg : Cfg) (w : World) (req : Req)
     (hfail : (handleExchange cfg w req).1.status ≠ 200 ∨ (handleExchange cfg w req).1.rpcErr = true ∨
       HasExc (handleExchange cfg w req).1) :
     TokenFree (handleExchange cfg w req).1 ∧ (handleExchange cfg w req).2.1.minted = w.minted := by
-  rcases handleExchange_cases cfg w req with ⟨e, h⟩ | ⟨tv, cur, w1, htv, hcur, _, hm, hcl, h⟩
-  · rw [h]; exact ⟨fun b hb => exc_litOnly e b hb, rfl⟩
+  rcases handleExchange_cases cfg w req with ⟨e, w0, h, hm0, hc0⟩ | ⟨tv, cur, w1, htv, hcur, _, _, hm, hcl, h⟩
+  · rw [h]; exact ⟨fun b hb => exc_litOnly e b hb, hm0⟩
   · rcases h with ⟨_, h⟩ | ⟨_, _, h⟩ | ⟨_, _, _, h⟩
     · rw [h]; exact ⟨(by intro b hb; cases hb), hm⟩
     · obtain ⟨l1, l2, l3, _⟩ := produceLoop_spec cfg (cur.st.prog.drop cur.st.pos) cur.st.pos
@@ -314,9 +314,9 @@ theorem cancel_once_empty (cfg : Cfg) (w : World) (req : Req)
         (handleExchange cfg w req).2.2 = (if cur.st.cancel = CancelAct.absent then [] else [Event.cancel])) ∧
     ((handleExchange cfg w req).1.status ≠ 200 →
       (handleExchange cfg w req).2.2 = [] ∧ ∃ e, (handleExchange cfg w req).1 = errResp 400 false e) := by
-  rcases handleExchange_cases cfg w req with ⟨e, h⟩ | ⟨tv, cur, w1, htv, hcur, _, hm, _, h⟩
+  rcases handleExchange_cases cfg w req with ⟨e, w0, h, hm0, hc0⟩ | ⟨tv, cur, w1, htv, hcur, _, _, hm, _, h⟩
   · rw [h]
-    refine ⟨rfl, fun b hb => exc_litOnly e b hb, (by intro ev hev; cases hev), (by simp), ?_, fun _ => ⟨rfl, e, rfl⟩⟩
+    refine ⟨hm0, fun b hb => exc_litOnly e b hb, (by intro ev hev; cases hev), (by simp), ?_, fun _ => ⟨rfl, e, rfl⟩⟩
     intro hs; simp [errResp] at hs
   · rcases h with ⟨_, h⟩ | ⟨hc2, _⟩ | ⟨hc2, _⟩
     · rw [h]
@@ -338,8 +338,8 @@ theorem at_most_one_cursor (cfg : Cfg) (w : World) (req : Req) :
     (handleExchange cfg w req).2.1.minted = w.minted ∨
     ∃ tv cur pos, getFirst keyState req.md = some tv ∧ openCursor w tv = some cur ∧
       (handleExchange cfg w req).2.1.minted = w.minted ++ [advance cur pos] := by
-  rcases handleExchange_cases cfg w req with ⟨e, h⟩ | ⟨tv, cur, w1, htv, hcur, _, hm, _, h⟩
-  · rw [h]; exact Or.inl rfl
+  rcases handleExchange_cases cfg w req with ⟨e, w0, h, hm0, hc0⟩ | ⟨tv, cur, w1, htv, hcur, _, _, hm, _, h⟩
+  · rw [h]; exact Or.inl hm0
   · rcases h with ⟨_, h⟩ | ⟨_, _, h⟩ | ⟨_, _, _, h⟩
     · rw [h]; exact Or.inl hm
     · rw [h]
@@ -354,13 +354,14 @@ theorem at_most_one_cursor (cfg : Cfg) (w : World) (req : Req) :
       · rw [hw]; exact Or.inl hm
       · rw [hw]; exact Or.inr ⟨tv, cur, _, htv, hcur, by rw [hm]⟩
 
-/-- **rejected_runs_nothing**: a continuation answered with a non-200 status invoked no handler and
-left the world untouched. -/
+/-- **rejected_runs_nothing**: a continuation answered with a non-200 status invoked no handler,
+minted no cursor and no call id (at most a call-cache entry was refreshed). -/
 theorem rejected_runs_nothing (cfg : Cfg) (w : World) (req : Req)
     (hst : (handleExchange cfg w req).1.status ≠ 200) :
-    (handleExchange cfg w req).2.2 = [] ∧ (handleExchange cfg w req).2.1 = w := by
-  rcases handleExchange_cases cfg w req with ⟨e, h⟩ | ⟨tv, cur, w1, htv, hcur, _, hm, _, h⟩
-  · rw [h]; exact ⟨rfl, rfl⟩
+    (handleExchange cfg w req).2.2 = [] ∧ (handleExchange cfg w req).2.1.minted = w.minted ∧
+    (handleExchange cfg w req).2.1.calls = w.calls := by
+  rcases handleExchange_cases cfg w req with ⟨e, w0, h, hm0, hc0⟩ | ⟨tv, cur, w1, htv, hcur, _, _, hm, _, h⟩
+  · rw [h]; exact ⟨rfl, hm0, hc0⟩
   · exfalso
     rcases h with ⟨_, h⟩ | ⟨_, _, h⟩ | ⟨_, _, _, h⟩
     · rw [h] at hst; simp [cancelTurn] at hst
